@@ -1,2 +1,59 @@
-(* Properties_C09.v -- placeholder, theorems follow *)
-From TP Require Import Term.
+(* Properties_C09.v — C09: erases leave default-attribute blanks and keep
+   attribute tracking right. *)
+From TP Require Import Base Elem Term VT Oracle P_Sync P_Step P_Bytes P_Run P_Props Tie_Output.
+Local Open Scope N_scope.
+
+(* For each of the six erase manipulators, from any state in which belief and
+   terminal agree (in particular after any history, with the rendition known or
+   unknown, coloured text just written or not), with background-colour-erase
+   on or off and any wrap mode: exactly the named region relative to the
+   cursor becomes default-attribute blanks, every other cell is unchanged, the
+   cursor and the pending-wrap flag do not move, the rendition is the default
+   one afterwards, and belief and terminal still agree (so text written next is
+   rendered with exactly its attributes, by C01). *)
+Theorem C09_erase :
+  forall cfg beh, (b_unicode_all beh = true -> unicode_all cfg = true) ->
+  forall st v k, Sync beh st v ->
+    let v' := vt_bytes cfg v (obytes beh st (Erase k)) in
+    Sync beh (fst (step beh st (Erase k))) v' /\
+    (forall p, cells v' p =
+               if erase_region_of k (vcur v) p then blank_cell default_rend else cells v p) /\
+    vcur v' = vcur v /\ pending v' = pending v /\ rend v' = default_rend /\
+    trace v' = trace v.
+Proof.
+  intros cfg beh Huni st v k S v'. unfold v'.
+  rewrite (step_bytes cfg beh Huni st v (Erase k) S I).
+  pose proof (sync_erase cfg beh st v k S) as H. cbv zeta in H.
+  destruct H as (S1 & Ht & _ & Hc & Hcur & Hp & Hr & _).
+  split; [exact S1|]. split; [intros p; rewrite Hc; reflexivity|].
+  repeat split; assumption.
+Qed.
+Print Assumptions C09_erase.
+
+(* the regions are the ones the manipulators' names say *)
+Theorem C09_regions :
+  forall (c p : pt),
+    erase_region_of EDisplay c p = true /\
+    (erase_region_of EDisplayBelow c p = true <->
+       snd c < snd p \/ (snd p = snd c /\ fst c <= fst p)) /\
+    (erase_region_of EDisplayAbove c p = true <->
+       snd p < snd c \/ (snd p = snd c /\ fst p <= fst c)) /\
+    (erase_region_of ELine c p = true <-> snd p = snd c) /\
+    (erase_region_of ELineRight c p = true <-> snd p = snd c /\ fst c <= fst p) /\
+    (erase_region_of ELineLeft c p = true <-> snd p = snd c /\ fst p <= fst c).
+Proof.
+  intros c p. unfold erase_region_of, in_ed, in_el.
+  repeat split; intros; Lia.lia.
+Qed.
+Print Assumptions C09_regions.
+
+(* after an erase the next element is preceded by exactly the SGR that makes
+   its attributes effective: the belief is "default", which is true *)
+Theorem C09_belief_after :
+  forall beh st k, exists l,
+    ts_last (fst (step beh st (Erase k))) = Some l /\ ea l = default_attr /\
+    ts_cur (fst (step beh st (Erase k))) = ts_cur st.
+Proof.
+  intros beh st k. cbn [step]. unfold to_default_attribute.
+  destruct (ts_last st) as [l|]; cbn; eexists; repeat split.
+Qed.
